@@ -35,6 +35,15 @@ CLAIMED = {
  'C10': dict(engine='E1', technique='both gradient computations of the real code (adjoint_reversible_heun vs backprop through reversible_heun) traced symbolically; equality as real polynomial functions (normal form + z3 residual)',
              text='For all four noise types, 2 steps with quadratic f,g (3-4 with affine), arbitrary loss weights on all output times: every gradient component (y0 and each parameter) from sdeint_adjoint equals the backprop gradient for all symbol values; forward DAGs identical.',
              note='algebraic identity over the reals; float rounding magnitude (1e-9) reported by the replay only', ref='4/C10'),
+ 'C16': dict(engine='E1', technique='DAG identity of real sdeint runs over interface variants; derived operators vs definitions built with dag.diff, polynomial normal form + z3 residual',
+             text='For every accepted solver configuration the SDE exposed via f_and_g, f+g_prod, f_and_g_prod, f_and_g+g_prod, renamed via names, or all methods gives the identical operation DAG as the f+g baseline, or fails with the explicit missing-method error; g_prod, the Milstein g dg v term (all noise types) and both dg_ga_jvp_column_sum implementations equal their definitions for all symbol values.',
+             note='user-supplied products written with the kernels the library uses (g*v, bmm)', ref='4/C16'),
+ 'C17': dict(engine='E1', technique='real sdeint on a special-noise SDE and on its general-noise embedding, same symbolic increments; equality as real functions (normal form + z3 residual)',
+             text='diagonal / scalar / additive declarations vs the general declaration with (batch,d,m) diffusion matrices, for euler, euler_heun, heun, midpoint, reversible_heun, log_ode (antisymmetric symbolic Levy area): every output component equal for all symbol values.',
+             note='equality over the reals (different float operations by construction)', ref='4/C17'),
+ 'C18': dict(engine='E1', technique='real sdeint(logqp=True) traced symbolically (pinverse intercepted as (g^T g)^-1 g^T); identities by rational normal form + z3 residual, non-negativity by z3',
+             text='State trajectory DAG identical to the run without logqp; output shape (T-1, batch); exact value 1/2|c|^2 (t_i - t_{i-1}) when f-h = g c (single-stage solvers for all noise types, all solvers for diagonal/additive except SRK-diagonal); Euler increments equal 1/2|g^+(f-h)|^2 dt at the grid states for all four noise types; non-negativity where z3 decides it.',
+             note='regular branch of stable_division / full column rank assumed; cases whose normal form does not cancel within budget are listed as outside', ref='4/C18'),
  'C19': dict(engine='E2', technique='concolic enumeration of symbolic enum/int-valued options through the real sdeint/sdeint_adjoint front end (z3 decides branch feasibility; coverage = size of the product), oracle table from DOCUMENTATION.md',
              text='Full forward product (2816 combinations incl. invalid/None method, bm given or not, adaptive, logqp): ValueError before integrate iff unsupported, documented default method and default Levy area; adjoint product: unsupported adjoint methods raise during backward, supported ones complete; bm shapes in 1..3 and all 32 interface subsets: ValueError iff inconsistent/missing; further malformed-argument classes by concrete observation.',
              note='support table transcribed from the documentation; exceptions raised inside user-supplied g_prod when probed with an inconsistent bm count as refused', ref='4/C19'),
@@ -44,6 +53,9 @@ CLAIMED = {
  'C12': dict(engine='E2', technique='concolic execution of the real BaseSDESolver.integrate / linear_interp over symbolic ts and dt; grid, interpolation and invariance assertions proved per path by z3',
              text='All paths for <=4 output times / <=3 steps (quick): step k is [ts0+k dt, min(ts0+(k+1)dt, ts_end)], ys[0] is y0, outputs are the grid state or the linear interpolant of the neighbouring grid states, removing/adding an output time leaves the others unchanged; shape/dtype by a finite sweep of real sdeint calls.',
              note='step treated as an arbitrary function; real arithmetic', ref='4/C12'),
+ 'C13': dict(engine='E1+E2', technique='identical float-operation DAGs of chunked vs one-shot real sdeint runs (modulo IEEE-exact 1*x, 0*x, x+0); step-interval equality for symbolic t0/dt by concolic execution of the real integrate loop + z3',
+             text='Every accepted solver x noise type (+grad_free): solving [t0,t2] at once and in 2-3 chunks restarted from the returned final state and extra solver state, with the same Brownian object and restart points on the dt grid, gives the identical operation DAG (hence identical bits); reversible Heun restarted WITHOUT its extra state differs (twin). Chunk step intervals equal the one-shot ones for symbolic t0, dt and a clipped last step.',
+             note='dyadic dt so that grid times are exact floats; float drift of accumulated times for non-dyadic dt is outside', ref='4/C13'),
  'C14': dict(engine='E2+E1', technique='concolic execution of the real adaptive loop + real update_step_size with arbitrary error estimates (nondeterministic stub) and an uninterpreted real power; error norm formula by z3',
              text='Per-trial invariants on every schedule within the trial bound: trial interval, halves, accept iff e<=1 or at dt_min, rejected steps leave state untouched and shrink, accepted state is the two-half-step one, final time exactly ts[-1]; compute_error equals the mixed rtol/atol RMS norm.',
              note='precondition dt>=dt_min>0; termination via stated ranking argument', ref='4/C14'),
@@ -51,6 +63,9 @@ CLAIMED = {
              text='For all four noise types, symbolic step sizes, 1-3 steps: the reverse solve on the negated time-reversed SDE reconstructs (y, z, -f, -g) of every forward state exactly, for ALL f and g.',
              note='real arithmetic; numerical stability outside', ref='4/C15'),
 }
+CLAIMED['C20'] = dict(engine='E1+E2', technique='support (reachable input symbols) of the output DAG rows of real sdeint runs, z3 where a foreign symbol occurs syntactically; DAG identity under row permutation; support of real BrownianInterval outputs per element',
+             text='For every accepted solver configuration with batch 2-3: output row i mentions only row-i symbols of y0 and of the Brownian increments (plus shared parameters), permuting input rows permutes the output DAGs; each element of a BrownianInterval sample (W, U, A) depends only on its own noise element(s), noise drawn at the full sample shape.',
+             note='row-wise user SDE; a deliberately coupled SDE is flagged (twin)', ref='4/C20')
 PENDING = {
  'C13': 'harness under construction (chunked vs one-shot DAG identity)',
  'C16': 'harness under construction (interface variants, derived operators)',
